@@ -12,6 +12,9 @@ rotate/...   no crash.  After every runner call the retained files (slot keep ..
              record, the main file holds every record since the last rotation, no generation inside
              the keep window is missing, and main was only renamed away when its size had reached
              the threshold.
+fault/...    rotate/ (and, thorough, crash/) histories with one environment fault: one os.rename call (symbolic number)
+             raises OSError(EIO), or one retained copy (symbolic slot, symbolic tick) is deleted by another actor.
+             Demanded afterwards: only the clauses that do not depend on the keep window (see ASSUMPTIONS).
 crash/...    the process dies right after file-system operation number `crash` (symbolic).  Every record
              that had been written to a file before a completed fsync of that file must be in the
              durable view, and every record that had been flushed to the kernel must be in the kernel
@@ -43,6 +46,10 @@ ASSUMPTIONS = [
     "one 'always' Log with one loggee per Logger; Store built without bookkeeping shares; store.house is a stub with a name; "
     "datetime.now() in Logger.createPath is a fixed clock",
     "reuse=True pre-state: the directory holds a consistent result of an earlier session (main and older slots with header + records, remaining slots empty)",
+    "fault/...: at most one environment fault per history (one os.rename raises OSError(EIO) and changes nothing / one retained copy is deleted by another "
+    "actor between two ticks); after a fault only the clauses that do not depend on the keep window are demanded (header, every file an in-order "
+    "contiguous stretch, no duplicates, newest file holds every record since the main file was last renamed away, flushed records present after a crash "
+    "unless their generation was discarded by a started rename chain or they were in the deleted file)",
 ]
 
 class _House(object):
@@ -103,11 +110,25 @@ class Ghost(object):
         self.promise_os = []     # ids that reached the kernel
         self.size_fail = None
         self.size_limit = 0
+        self.faulted = False     # an injected environment fault has happened
+        self.partial_chain = False   # ... a rename failed after an earlier rename of the same chain had succeeded
+        self.chain_len = 0       # successful renames since the last runner call
+        self.external_lost = []  # ids that were in a file somebody else deleted
 
     def hook(self, fs, event, info):
         if event == "write":
             return
+        if event == "rename-failed":
+            self.faulted = True
+            if self.chain_len > 0:
+                self.partial_chain = True
+            return
+        if event == "external-remove":
+            with _untraced(self.sym):
+                self.external_lost.extend(_ids(info["replaced"].os))
+            return
         if event == "rename":
+            self.chain_len += 1
             if self.keep > 0 and info["dst"] == self.paths[self.keep]:
                 self.rot_started += 1
             if info["src"] == self.paths[0]:
@@ -147,6 +168,8 @@ def _check_crash(sym, gh, crash):
                     continue
                 if floor is not None and gh.gen[rid] < floor:
                     continue                      # generation discarded by design
+                if rid in gh.external_lost:
+                    continue                      # was in a file another actor deleted
                 return ("C23/crash/flushed-record-not-durable" if level == "disk"
                         else "C23/crash/flushed-record-lost-from-kernel-view",
                         "record %s (generation %d) absent after dying at fs op %d (%s); rotations begun %d, keep %d; files %r"
@@ -156,7 +179,11 @@ def _check_crash(sym, gh, crash):
 
 
 def _check_retained(sym, fs, gh, header, pre_older, when):
-    """the no-crash clauses, on the content a reader of the files would get"""
+    """the no-crash clauses, on the content a reader of the files would get.
+    After an injected environment fault (failed rename, file deleted by another actor) the keep window is
+    no longer well defined, so only the clauses that do not depend on it are demanded: header, every file a
+    contiguous in-order stretch, no duplicates, files in stream order, newest file holds every record since
+    the last rotation (= the last time the main file was renamed away)."""
     with _untraced(sym):
         paths, keep = gh.paths, gh.keep
         main = fs.logical(paths[0])
@@ -165,10 +192,11 @@ def _check_retained(sym, fs, gh, header, pre_older, when):
         seq = []
         filled = min(keep, pre_older + gh.rot_done)
         short = lambda p: p.rsplit("/", 1)[-1]
+        pos = {rid: i for i, rid in enumerate(gh.stream)}
         for k in range(keep, -1, -1):
             text = fs.logical(paths[k])
             if k > 0 and (text is None or text == ""):
-                if k <= filled:
+                if k <= filled and not gh.faulted:
                     return ("C23/rotate/retained-generation-missing",
                             "%s: slot %s is empty after %d rotation(s) (+%d older generation(s) before start)"
                             % (when, short(paths[k]), gh.rot_done, pre_older))
@@ -188,12 +216,21 @@ def _check_retained(sym, fs, gh, header, pre_older, when):
                 return ("C23/rotate/unparsable-record", "%s: %s = %r" % (when, short(paths[k]), body))
             if k == 0:
                 since = gh.stream[gh.mark:]
-                if since and ids[-len(since):] != since:
+                if len(ids) < len(since) or (since and ids[-len(since):] != since):
                     return ("C23/rotate/newest-file-lacks-records-since-rotation",
                             "%s: main holds %r, written since last rotation %r" % (when, ids, since))
+            idx = [pos.get(i) for i in ids]
+            if None in idx or any(b != a + 1 for a, b in zip(idx, idx[1:])):
+                return ("C23/rotate/file-not-a-contiguous-stretch-of-the-stream",
+                        "%s: %s holds %r, stream %r" % (when, short(paths[k]), ids, gh.stream))
             seq.extend(ids)
         if len(set(seq)) != len(seq):
             return ("C23/rotate/record-duplicated", "%s: %r" % (when, seq))
+        order = [pos[i] for i in seq]
+        if any(b <= a for a, b in zip(order, order[1:])):
+            return ("C23/rotate/files-not-in-stream-order", "%s: files oldest..newest hold %r" % (when, seq))
+        if gh.faulted:
+            return None
         n = len(seq)
         if n > len(gh.stream) or (n and gh.stream[len(gh.stream) - n:] != seq):
             return ("C23/rotate/files-not-a-contiguous-stretch-of-the-stream",
@@ -207,13 +244,13 @@ def _check_retained(sym, fs, gh, header, pre_older, when):
     return None
 
 
-def h(sym, keep, reuse, T, nmax, dmax, pmax, smax, crash, restart=False, prefill=None):
+def h(sym, keep, reuse, T, nmax, dmax, pmax, smax, crash, restart=False, prefill=None, fault=None):
     fs = MemFS()
     fs.realize = sym.realize
     undo = install(fs)
     ctx = {}
     try:
-        return _h(sym, fs, ctx, keep, reuse, T, nmax, dmax, pmax, smax, crash, restart, prefill)
+        return _h(sym, fs, ctx, keep, reuse, T, nmax, dmax, pmax, smax, crash, restart, prefill, fault)
     finally:
         lg = ctx.get("logger")
         if lg is not None and lg.runner is not None:
@@ -225,7 +262,7 @@ def h(sym, keep, reuse, T, nmax, dmax, pmax, smax, crash, restart=False, prefill
         undo()
 
 
-def _h(sym, fs, ctx, keep, reuse, T, nmax, dmax, pmax, smax, crash, restart, prefill):
+def _h(sym, fs, ctx, keep, reuse, T, nmax, dmax, pmax, smax, crash, restart, prefill, fault):
     L.Logger.Clear(); tasking.Tasker.Clear(); L.Log.Clear()
     store = Store.__new__(Store)
     store.name = "s"
@@ -247,7 +284,7 @@ def _h(sym, fs, ctx, keep, reuse, T, nmax, dmax, pmax, smax, crash, restart, pre
     logger.flushPeriod = sym.int("flush", 1, pmax)
     if keep > 0:
         logger.cyclePeriod = sym.int("cycle", 1, pmax)
-        logger.fileSize = sym.int("size", 0, smax)
+        logger.fileSize = sym.int("size", 0, smax) if smax > 0 else 0
 
     d = "/x/h/lgr" if reuse else "/x/h/lgr_20200102_030405_006"
     paths = [d + "/lg.txt"] + [d + "/lg%02d.txt" % k for k in range(1, keep + 1)]
@@ -283,6 +320,13 @@ def _h(sym, fs, ctx, keep, reuse, T, nmax, dmax, pmax, smax, crash, restart, pre
     fs.hook = gh.hook
     if crash:
         fs.crash_at = sym.int("crash", 1, crash)
+    # environment fault (at most one per history)
+    rm_slot = rm_tick = None
+    if fault == "rename-error":
+        fs.rename_fail_at = sym.int("rfail", 1, 3 * keep * (T + 1))
+    elif fault == "slot-removed":
+        rm_slot = sym.int("rmslot", 1, keep)
+        rm_tick = sym.int("rmtick", 1, T)
 
     ctr = [0]
 
@@ -291,6 +335,7 @@ def _h(sym, fs, ctx, keep, reuse, T, nmax, dmax, pmax, smax, crash, restart, pre
         rid = "r%d" % ctr[0]
         share.update(value=rid)
         gh.new_record(rid)                 # every runner call below performs exactly one Logger.log()
+        gh.chain_len = 0
         logger.runner.send(control)
         if gh.size_fail is not None:
             sym.fail("C23/rotate/rotated-below-size-threshold",
@@ -307,12 +352,23 @@ def _h(sym, fs, ctx, keep, reuse, T, nmax, dmax, pmax, smax, crash, restart, pre
             if restart and t == (T + 1) // 2 + 1:
                 step(STOP, "STOP@%d" % t)
                 step(START, "reSTART@%d" % t)
+            if rm_tick is not None and t == rm_tick:
+                for k in range(1, keep + 1):
+                    if k == rm_slot:
+                        gone = fs.remove_external(paths[k])    # another actor deletes one retained copy
+                        sym.assume(gone is not None and gone.os != "")
+                        gh.faulted = True
             n = sym.int("n%d" % t, 0, nmax)
             for j in range(n):
                 step(RUN, "RUN %d.%d" % (t, j))
         step(STOP, "STOP")
     except ProcessKilled:
         pass
+    if fault:
+        sym.assume(gh.faulted)             # the fault index lay beyond the history: same as a rotate/ path
+        sym.cover("fault-hit")
+        if gh.partial_chain:
+            sym.cover("rename-failed-after-part-of-the-chain")
     if crash:
         sym.assume(fs.crash is not None)   # the history was shorter than the crash index: not a crash path
         sym.cover("died")
@@ -356,6 +412,24 @@ def obligations(tier):
                                               flush_period="1..%d (symbolic)" % params["pmax"],
                                               size_threshold="0..40 (symbolic)", keep=keep, reuse=reuse,
                                               earlier_session_files=prefill, restart=restart)))
+    # environment faults: one os.rename of the history fails with EIO / one retained copy is deleted by
+    # another actor between two ticks.  Size threshold 0 (always rotate): the size dimension is covered above.
+    for keep, kind in ((2, "rename-error"), (3, "rename-error"), (3, "slot-removed")) if quick else \
+            ((1, "rename-error"), (2, "rename-error"), (3, "rename-error"), (2, "slot-removed"), (3, "slot-removed")):
+        for crashing in ((False,) if quick else (False, True)):
+            T = 3 if not crashing else 2
+            params = dict(keep=keep, reuse=False, T=T, nmax=2, dmax=1, pmax=2, smax=0, crash=80 if crashing else 0,
+                          restart=False, prefill=None, fault=kind)
+            covers = ["fault-hit"] + (["rename-failed-after-part-of-the-chain"] if keep >= (2 if kind == "rename-error" else 3) else []) + \
+                     (["died"] if crashing else [])
+            out.append(Ob("fault/%s/keep=%d%s" % (kind, keep, "/crash" if crashing else ""), h, params,
+                          budget=600 if quick else 3000, covers=covers,
+                          bounds=dict(ticks=T, runs_per_tick="0..2 (symbolic)", cycle_period="1..2 (symbolic)",
+                                      flush_period="1..2 (symbolic)", size_threshold=0, keep=keep, reuse=False,
+                                      fault=("the os.rename call number 1..%d (symbolic) raises OSError(EIO)" % (3 * keep * (T + 1)))
+                                      if kind == "rename-error" else
+                                      "retained copy 1..keep (symbolic) is deleted by another actor before tick 1..T (symbolic)",
+                                      crash_index="1..80 (symbolic)" if crashing else None)))
     for keep in (1, 2) if quick else (0, 1, 2, 3):
         for reuse in (False, True):
             T = 2 if quick else 3
